@@ -24,12 +24,19 @@ META = {
                   "over all rings of <=4-5 instances x <=2 tokens, <=2-3 zones, zone-awareness on/off, sizes 0..ring size+1, and all partition rings "
                   "of <=3-4 partitions in all states. The same clause predicates, as relations between observed answers, validate histories "
                   "recorded from the real Ring/PartitionRing clients (small rings enumerated systematically, random rings up to 40 instances x "
-                  "128 tokens x 4 zones and 30 partitions; a long-lived watching client and a second independently built client), and the walk "
-                  "model is replayed against the real code on concretised cases with the code's own start sequences.",
+                  "128 tokens x 4 zones and 30 partitions; a long-lived watching client and a second independently built client; instances in "
+                  "every state, state/heartbeat-only updates that must not change any answer, two changes in one second, re-registration under the "
+                  "same identifier with the same tokens, size math.MaxInt). Subrings are ring contents of their own (SubQuery): shards taken from "
+                  "shards of consecutive sizes, from a look-back subring, from GetSubringForOperationStates and from an independently built ring "
+                  "holding exactly those members must agree, obey every clause on the restricted view, and differ by at most one member between "
+                  "two subrings one instance apart (instance and partition rings). Six negative-control / witness configs (MC_neg_*, MC_wit_*; each refuted by TLC when run by hand) are run only with VERIF_C12_NEG=1. "
+                  "The walk model is replayed against the real code on concretised cases with the code's own start sequences.",
     "level_note": "Exhaustive only within the stated bounds; the recorded histories are samples. Trusted: TLC, the rank compression of tokens and "
                   "start values (harness/c12 startsFor), the recorder's time convention (change stamped t happens at t+1/2, query at now+1/4). "
                   "Consistency and the look-back clause are required only between rings with the same set of zones (the per-zone quota depends on "
-                  "the number of zones); identifiers of removed instances are not reused.",
+                  "the number of zones); an identifier of a removed instance is reused only with the same tokens and zone. Look-back on subrings, "
+                  "ShuffleShardSize/ShuffleShardExpectedInstances (compared Go-side with the shard sizes only) and the subring caches (C13) are not "
+                  "part of the specification. A request of math.MaxInt instances appears as size 1000000 in traces (TLC integers are 32-bit).",
     "technique": "TLA+ specifications (ShuffleShard*.tla white box, ShardHistory.tla black box) model-checked by TLC; traces recorded from the "
                  "real code validated by TLC; TLC-evaluated concretised cases compared with the real code",
     "design_ref": "DESIGN.md 2 C12",
@@ -64,6 +71,28 @@ def model_check(ctx):
                                                         "AddPartition", "SwitchState", "RemovePartition")]
             if acts:
                 raise verif.Inconclusive("%s: actions never taken: %s" % (cfg, acts))
+    if os.environ.get("VERIF_C12_NEG") == "1":   # not in the tiers yet: refuted by hand-run TLC, the driver path is unverified
+        negative_controls(ctx)
+
+
+# negative controls and reachability witnesses: TLC must REFUTE these (else the clauses could hold vacuously
+# or the model checker could be blind to the clause); each is < 300 states
+MUST_FAIL = [("MC_neg_zonechange.cfg", ("LookbackSuperset",)),     # the zone-change exemption is necessary (DESIGN 8.3 observation is reachable)
+             ("MC_neg_ext.cfg", ("LookbackSuperset",)),            # a walk that stops at a read-only / recently switched instance
+             ("MC_neg_inc.cfg", ("SizeFormula", "NoReadOnlyMembers")),   # a walk that does not pass read-only instances
+             ("MC_wit_extended.cfg", ("NeverExtended",)),          # look-back answers larger than the plain shard exist
+             ("MC_wit_exhausted.cfg", ("NeverExhausted",)),        # exhausted zones / rings exist
+             ("MC_wit_consistency.cfg", ("NeverInconsistentPair",))]   # one-apart rings with different shards exist
+
+
+def negative_controls(ctx):
+    for cfg, want in MUST_FAIL:
+        r = ctx.tlc("shuffleshard", "ShuffleShardMC", cfg=cfg, timeout=TLC_TIMEOUT, workers=1, count=False)
+        if r.timed_out or r.error and not r.violated:
+            ctx.require_tlc_ok(r, cfg)
+        if r.violated not in want:
+            raise verif.Inconclusive("%s: TLC was expected to refute %s, got %s" % (cfg, "/".join(want), r.violated))
+    ctx.extra["c12_negative_controls_refuted"] = len(MUST_FAIL)
 
 
 def concretise(ctx, r, cfg):
@@ -227,12 +256,14 @@ def replay_direction(ctx, cases, conc, n, holder=None):
 def run(ctx):
     ctx.rule = ("a case is one recorded history (a ring + 3-9 changes; 2-3 identifiers x every size 0..2n+zones (small zone-aware rings: every "
                 "split of n<=6 instances over <=3 zones) / 0..n+2 (other small rings) / 10 sizes (large rings); plain + look-back queries before each "
-                "change, in the very second of the change and one second later; a watching client and a second independently built client) or one "
+                "change, in the very second of the change and one second later; a watching client and a second independently built client; shards of "
+                "<=4 (thorough 6) subrings of each version for every size 0..|subring|+1) or one "
                 "concretised walk case (ring x identifier x sizes x look-back periods); non-trivial = look-back answers strictly larger than the plain "
                 "shard (history) / a shard that is a proper non-empty subset of the ring (walk case); distinct = distinct TLC states of the exhaustive walk models")
     ctx.assumptions = ["rank compression of tokens and start values (harness/c12 startsFor)",
                        "time convention: a change stamped t happens at t+1/2; a query with now=T is issued at T+1/4 (late=0) or right after the change stamped T (late=1)",
-                       "Consistency / LookbackSuperset only between rings with the same set of zones; instance ids are not reused",
+                       "Consistency / LookbackSuperset only between rings with the same set of zones; an instance id is reused only with the same tokens and zone",
+                       "a request of math.MaxInt instances is logged as size 1000000",
                        "every instance / partition has at least one token"]
     ctx.exhaustive = True
     only = [x for x in os.environ.get("VERIF_C12_ONLY", "").split(",") if x]   # development knob: mc,validate,replay
